@@ -109,6 +109,8 @@ def gen_core(seed: int, tier: str = "quick", force=None, transport_mix="mixed",
     feats = swarm_features(rng, force)
     groups = gen_groups(rng, feats)
     n = rng.choice([1, 2, 2, 3, 3, 3, 4, 4, 5])
+    if tier == "thorough" and rng.random() < 0.15:
+        n = 6
     if max_sims:
         n = min(n, max_sims)
     sims = []
@@ -186,7 +188,7 @@ def gen_core(seed: int, tier: str = "quick", force=None, transport_mix="mixed",
             used.add((a, se, b, de, va))
         conns.append(c)
     big = tier == "thorough"
-    until = rng.choice([1, 2, 3, 4, 5, 6, 7, 8] if not big else list(range(1, 15)))
+    until = rng.choice([1, 2, 3, 4, 5, 6, 7, 8] if not big else list(range(1, 15)) + [16, 20])
     if rng.random() < 0.3:
         # pruning active: until large against the step sizes
         until = max(until, rng.choice([8, 9, 10] if not big else [12, 13, 14]))
@@ -615,6 +617,12 @@ def gen_rt(seed: int, tier: str = "quick") -> Dict[str, Any]:
                     evs.append({"at": at, "kind": k, "t": until if k == "until" else until + 2})
             s["events"] = evs
             s["set_events"] = True
+    for s in sims:
+        if s["transport"] in ("gated", "stock") and s["type"] != "time-based" and rng.random() < 0.25:
+            # an in-process simulator that sets events for itself from inside step()
+            s["stub"] = "async"
+            s["beh"]["async_calls"] = [{"kind": "set_event", "p": rng.choice([0.3, 0.6]),
+                                        "t": rng.choice([1, 2, 3]), "reraise": True}]
     durations = rng.choice([[0.0], [0.0], [0.0, period / 4], [0.0, period / 4, period / 2],
                             [0.0, period / 2, period, 3 * period]])
     sched = {"profile": "uniform", "seed": rng.randrange(1 << 30), "unit": 1.0, "choices": durations}
